@@ -253,7 +253,8 @@ func (m *Muxer) WriteData(d *MuxerData) (int, error) {
 				if pkt.AdaptationField == nil {
 					pkt.AdaptationField = newStuffingAdaptationField(bytesAvailable)
 				} else {
-					pkt.AdaptationField.StuffingLength = bytesAvailable
+					// The stuffing the caller asked for is already part of pktLen
+					pkt.AdaptationField.StuffingLength += bytesAvailable
 				}
 			} else {
 				pkt.Header.HasPayload = true
@@ -304,7 +305,8 @@ func (m *Muxer) WriteData(d *MuxerData) (int, error) {
 				if pkt.AdaptationField == nil {
 					pkt.AdaptationField = newStuffingAdaptationField(bytesAvailable)
 				} else {
-					pkt.AdaptationField.StuffingLength = bytesAvailable
+					// The stuffing the caller asked for is already part of pktLen
+					pkt.AdaptationField.StuffingLength += bytesAvailable
 				}
 			}
 
